@@ -19,6 +19,8 @@ use serde_json::{json, Value as J};
 pub enum ByteOp {
     Truncate(usize),
     Zero(usize, usize),
+    /// a window read back as all ones (an erased flash page)
+    Ones(usize, usize),
     Flip(usize, u8),
     /// overwrite starting at offset (clipped to the buffer)
     Set(usize, Vec<u8>),
@@ -45,6 +47,12 @@ impl Fault {
                 let e = (*e).min(b.len());
                 for x in b.iter_mut().take(e).skip(*a) {
                     *x = 0;
+                }
+            }
+            ByteOp::Ones(a, e) => {
+                let e = (*e).min(b.len());
+                for x in b.iter_mut().take(e).skip(*a) {
+                    *x = 0xff;
                 }
             }
             ByteOp::Flip(off, bit) => {
@@ -80,6 +88,7 @@ impl Fault {
         match &self.op {
             ByteOp::Truncate(k) => json!({"kind": self.kind, "op": "truncate", "at": k}),
             ByteOp::Zero(a, e) => json!({"kind": self.kind, "op": "zero", "from": a, "to": e}),
+            ByteOp::Ones(a, e) => json!({"kind": self.kind, "op": "ones", "from": a, "to": e}),
             ByteOp::Flip(o, b) => json!({"kind": self.kind, "op": "flip", "off": o, "bit": b}),
             ByteOp::Set(o, v) => json!({"kind": self.kind, "op": "set", "off": o, "bytes": mval::hex(v)}),
             ByteOp::Insert(o, v) => json!({"kind": self.kind, "op": "insert", "off": o, "bytes": mval::hex(v)}),
@@ -94,6 +103,7 @@ impl Fault {
         let op = match j["op"].as_str().unwrap_or("") {
             "truncate" => ByteOp::Truncate(u("at")?),
             "zero" => ByteOp::Zero(u("from")?, u("to")?),
+            "ones" => ByteOp::Ones(u("from")?, u("to")?),
             "flip" => ByteOp::Flip(u("off")?, u("bit")? as u8),
             "set" => ByteOp::Set(u("off")?, bytes()?),
             "insert" => ByteOp::Insert(u("off")?, bytes()?),
@@ -106,7 +116,7 @@ impl Fault {
 }
 
 pub const FAULT_KINDS: &[&str] = &[
-    "truncate", "zero_fill", "bit_flip", "byte_set", "insert", "delete", "splice", "header_count", "header_type",
+    "truncate", "zero_fill", "ones_fill", "bit_flip", "byte_set", "insert", "delete", "splice", "header_count", "header_type",
     "entry_type", "entry_len", "key_retype", "number_tag", "number_width", "utf8_poke", "key_dup",
 ];
 
@@ -282,6 +292,11 @@ fn gen_fault(r: &mut Rng, kind: &str, pristine: &[u8], layout: &[Field], other: 
             let len = *r.pick(&[1usize, 4, 8, 16, 64, 512]);
             Fault::new(kind, ByteOp::Zero(a, a + len))
         }
+        "ones_fill" => {
+            let a = off_near(r);
+            let len = *r.pick(&[4usize, 8, 16, 64, 128, 512]);
+            Fault::new(kind, ByteOp::Ones(a, a + len))
+        }
         "bit_flip" => Fault::new(kind, ByteOp::Flip(off_near(r), r.below(8) as u8)),
         "byte_set" => {
             let off = off_near(r);
@@ -400,7 +415,7 @@ fn gen_fault(r: &mut Rng, kind: &str, pristine: &[u8], layout: &[Field], other: 
 fn fault_site(f: &Fault) -> usize {
     match &f.op {
         ByteOp::Truncate(k) => *k,
-        ByteOp::Zero(a, _) => *a,
+        ByteOp::Zero(a, _) | ByteOp::Ones(a, _) => *a,
         ByteOp::Flip(o, _) | ByteOp::Set(o, _) | ByteOp::Insert(o, _) | ByteOp::Delete(o, _) | ByteOp::Splice(o, _) => *o,
     }
 }
@@ -586,10 +601,11 @@ impl Corrupt {
             }
         }
         // lost page: zero-fill aligned windows
-        for w in [4usize, 16, 64] {
+        for w in [4usize, 16, 64, 128] {
             let mut a = 0;
             while a < n {
                 run(cx, Fault::new("zero_fill", ByteOp::Zero(a, a + w)));
+                run(cx, Fault::new("ones_fill", ByteOp::Ones(a, a + w)));
                 a += w;
             }
         }
